@@ -14,6 +14,7 @@ sync_verif() {
   mkdir -p "$LAB/verif"
   rsync -a --delete --exclude target --exclude replays-out --exclude .git --exclude evidence --exclude seeded /verif/ "$LAB/verif/"
   mkdir -p "$LAB/verif/evidence" "$LAB/target"; [ -e "$LAB/verif/target" ] || ln -sfn "$LAB/target" "$LAB/verif/target"
+  # (the lab's build output stays in $LAB/target across syncs: verif/target is a symlink to it)
   sed -i "s#/repo/crates#$LAB/repo/crates#g" "$LAB"/verif/sim/*/Cargo.toml
   sed -i "s#/verif/target#$LAB/target#" "$LAB/verif/sim/.cargo/config.toml"
   # the check script takes its root from its own location; the build script reads VERIF_REPO
